@@ -4,6 +4,7 @@ int shp_rs8_available(void) { return 0; }
 void shp_rs8_addmul1(uint8_t *d, uint8_t *s, uint8_t c, int sz) { (void)d; (void)s; (void)c; (void)sz; }
 int shp_rs8_table(int which, const void **p, size_t *es, size_t *cnt, size_t *stride) { (void)which; (void)p; (void)es; (void)cnt; (void)stride; return 0; }
 void shp_rs8_reinit(void) { }
+int shp_rs8_use(int flavour, uint64_t start, uint64_t count) { (void)flavour; (void)start; (void)count; return 0; }
 #else
 /* private copy of the translation unit: its globals are made local by the build (objcopy -G 'shp_*') */
 #include "lib_stable/reed-solomon_gf_2_8/of_reed-solomon_gf_2_8.c"
@@ -16,6 +17,39 @@ void shp_rs8_addmul1(uint8_t *d, uint8_t *s, uint8_t c, int sz)
 	of_addmul1(d, s, c, sz);
 }
 void shp_rs8_reinit(void) { of_rs_init(); }
+/* ordinary use of the codec kernel: `count` codec contexts created and freed, numbered from `start`;
+ * flavour 1 = create/free only, 2 = + one repair symbol encoded, 3 = + one erasure decoded. Returns the number of
+ * calls that reported an error (none is expected). */
+int shp_rs8_use(int flavour, uint64_t start, uint64_t count)
+{
+	static gf bufs[8][8];
+	static gf rep[8];
+	uint64_t i;
+	int bad = 0, j;
+	for (i = start; i < start + count; i++) {
+		UINT32 k = 1 + (UINT32) (i % 5), n = k + 1 + (UINT32) ((i / 5) % 3);
+		void *code = of_rs_new(k, n);
+		if (code == NULL) { bad++; continue; }
+		if (flavour >= 2) {
+			void *src[8];
+			for (j = 0; j < (int) k; j++) { memset(bufs[j], (int) (i + j) | 1, 8); src[j] = bufs[j]; }
+			if (of_rs_encode(code, src, rep, (int) k, 8) != OF_STATUS_OK) bad++;
+			if (flavour >= 3) {
+				/* source 0 lost, first repair received in its place */
+				void *pkt[8]; int index[8];
+				gf lost[8];
+				memcpy(lost, bufs[0], 8);
+				memcpy(bufs[0], rep, 8);
+				for (j = 0; j < (int) k; j++) { pkt[j] = bufs[j]; index[j] = j; }
+				index[0] = (int) k;
+				if (of_rs_decode(code, pkt, index, 8) != OF_STATUS_OK) bad++;
+				else if (memcmp(pkt[0], lost, 8) != 0) bad++;
+			}
+		}
+		of_rs_free(code);
+	}
+	return bad;
+}
 int shp_rs8_table(int which, const void **p, size_t *es, size_t *cnt, size_t *stride)
 {
 	static int first = 1;
